@@ -173,6 +173,10 @@ func genC14Msg(t *rapid.T) *C14Msg {
 	case "reject":
 		m := &wire.MsgReject{Cmd: rapid.SampledFrom([]string{"block", "tx", "version", "", "headers", strings.Repeat("c", 300)}).Draw(t, "rc"),
 			Code: wire.RejectCode(rapid.Byte().Draw(t, "code")), Reason: rapid.StringN(0, 40, 200).Draw(t, "reason"), Hash: drawHash(t, "rh")}
+		if rapid.IntRange(0, 3).Draw(t, "longreason") == 0 {
+			// the reason has no limit of its own: strings beyond any internal chunk size
+			m.Reason = strings.Repeat("r", rapid.SampledFrom([]int{255, 256, 257, 511, 512, 513, 600, 1023, 1024, 1025, 4000, 65535, 65536, 70000}).Draw(t, "reasonlen"))
+		}
 		c.msg = m
 	}
 	return c
